@@ -77,7 +77,7 @@ def slug(s):
 
 # ------------------------------------------------------------------------------------ verus
 def run_verus(path, rlimit, seed=None, threads=4, timeout=None, extra=()):
-    timeout = timeout or (75 if rlimit <= 40 else 600)
+    timeout = timeout or (240 if rlimit <= 40 else 900)      # generous: a loaded machine must not turn a proof into UNDECIDED
     cmd = [VERUS, os.path.basename(path), '--output-json', '--time', '--multiple-errors', '6',
            '--triggers-mode', 'silent', '--rlimit', str(rlimit), '--num-threads', str(threads),
            '--error-format=json']
